@@ -130,19 +130,19 @@ fn c16_arity() {
     let nl: usize = kani::any();
     let np: usize = kani::any();
     kani::assume(nl <= 8 && np <= 8);
+    // eight literals and eight parameters are built; the call sees the first nl / np of them
     let mut lits = Vec::with_capacity(8);
+    let mut params: Vec<Rc<ComplexType>> = Vec::with_capacity(8);
     let mut i = 0;
     while i < 8 {
-        if i < nl {
-            lits.push(Literal::Int(i as i64));
-        }
+        lits.push(Literal::Int(i as i64));
+        // real Rc allocations whose ComplexType is never initialised (T2): with the conversion cut the types
+        // are only borrowed, never read
+        params.push(unsafe { Rc::<ComplexType>::new_uninit().assume_init() });
         i += 1;
     }
-    // a parameter list of length np without building types (never-initialised storage, T2): with the
-    // conversion cut only its len() is read
-    let params = std::mem::MaybeUninit::<[Rc<ComplexType>; 8]>::uninit();
-    let params_slice: &[Rc<ComplexType>] = unsafe { std::slice::from_raw_parts(params.as_ptr() as *const Rc<ComplexType>, np) };
-    let r = CallArgs::new(&lits, params_slice);
+    let params_slice: &[Rc<ComplexType>] = &params[..np];
+    let r = CallArgs::new(&lits[..nl], params_slice);
     match &r {
         Ok(a) => {
             bsv!(nl == np && nl <= 6 && a.0.len() == nl, "one register value per argument");
@@ -164,4 +164,5 @@ fn c16_arity() {
     kani::cover!(true, "BSV-END");
     std::mem::forget(r);
     std::mem::forget(lits);
+    std::mem::forget(params);
 }
